@@ -138,7 +138,7 @@ def _judge(case, sol, vs, opt, what):
 # generators
 # ---------------------------------------------------------------------------------------------
 def _rand_lin(rng, labs, spin):
-    ks = rng.sample(labs, rng.randint(1, min(3, len(labs))))
+    ks = rng.sample(labs, rng.randint(min(2, len(labs)), min(3, len(labs))))
     t = {(k,): rng.choice([-2, -1, 1, 1, 2]) for k in ks}
     if rng.random() < 0.2 and len(ks) >= 2:
         t[(ks[0], ks[1])] = rng.choice([-1, 1, 2])
@@ -181,7 +181,7 @@ def _rand_case(rng, tname, ctx):
             if g:
                 cons.append(g)
                 continue
-        cons.append(("rel", rng.choice(sorted(RELS)), _rand_lin(rng, labs, spin)))
+        cons.append(("rel", rng.choice(["le", "ge", "lt", "gt", "ne", "le", "ge", "eq"]), _rand_lin(rng, labs, spin)))
     return {"type": tname, "f": f, "cons": cons, "extras": [rng.choice([0, 0, 1, 5]) for _ in cons],
             "log_trick": rng.random() < 0.5}
 
@@ -238,6 +238,8 @@ def _gen(salt, quick_n, thorough_n):
             case = _rand_case(rng, rng.choice(["PCBO", "PCBO", "PCSO"]), ctx)
             if _analyse(case)[3] is None:
                 continue                        # infeasible: outside the precondition, not generated
+            if not _nontrivial(case) and rng.random() < 0.75:
+                continue                        # prefer cases in which the constraints change the answer
             made += 1
             yield dict(case, maxvars=mv)
     return gen
@@ -253,7 +255,7 @@ def _nontrivial(case):
 # ---------------------------------------------------------------------------------------------
 # clauses
 # ---------------------------------------------------------------------------------------------
-@clause("C08.solve_bruteforce", "C08", gen=_gen("c08.sb", 260, 5000), nontrivial=_nontrivial)
+@clause("C08.solve_bruteforce", "C08", gen=_gen("c08.sb", 300, 6000), nontrivial=_nontrivial)
 def check_solve_bruteforce(case):
     """H.solve_bruteforce() returns an assignment whose model part (non-ancilla variables) satisfies every constraint
     and attains the minimum of f over the feasible set; with all_solutions=True every returned assignment does.
@@ -280,7 +282,7 @@ def check_solve_bruteforce(case):
     return None
 
 
-@clause("C08.unconstrained_minimisers", "C08", gen=_gen("c08.un", 260, 5000), nontrivial=_nontrivial)
+@clause("C08.unconstrained_minimisers", "C08", gen=_gen("c08.un", 400, 8000), nontrivial=_nontrivial)
 def check_unconstrained(case):
     """Taken as an unconstrained problem (plain dict of H's terms handed to solve_pubo_bruteforce /
     solve_puso_bruteforce with all_solutions=True, no validity filter), the model's minimum equals the constrained
@@ -333,7 +335,7 @@ def _check_form(case, form):
     return None
 
 
-@clause("C08.pubo_form", "C08", gen=_gen("c08.pubo", 260, 5000), nontrivial=_nontrivial)
+@clause("C08.pubo_form", "C08", gen=_gen("c08.pubo", 500, 10000), nontrivial=_nontrivial)
 def check_pubo_form(case):
     """Every minimiser of H.to_pubo() becomes, after H.convert_solution(s, spin=False) and
     remove_ancilla_from_solution, a feasible assignment minimising f over the feasible set; min H.to_pubo() equals the
@@ -341,20 +343,20 @@ def check_pubo_form(case):
     return _check_form(case, "pubo")
 
 
-@clause("C08.puso_form", "C08", gen=_gen("c08.puso", 260, 5000), nontrivial=_nontrivial)
+@clause("C08.puso_form", "C08", gen=_gen("c08.puso", 500, 10000), nontrivial=_nontrivial)
 def check_puso_form(case):
     """Same for H.to_puso() with H.convert_solution(s, spin=True)."""
     return _check_form(case, "puso")
 
 
-@clause("C08.qubo_form", "C08", gen=_gen("c08.qubo", 200, 4000), nontrivial=_nontrivial)
+@clause("C08.qubo_form", "C08", gen=_gen("c08.qubo", 450, 9000), nontrivial=_nontrivial)
 def check_qubo_form(case):
     """Same for H.to_qubo() (default reduction penalty; constraint ancillas and reduction ancillas together) with
     H.convert_solution(s, spin=False). Cases whose QUBO has more variables than the scope limit are skipped."""
     return _check_form(case, "qubo")
 
 
-@clause("C08.quso_form", "C08", gen=_gen("c08.quso", 200, 4000), nontrivial=_nontrivial)
+@clause("C08.quso_form", "C08", gen=_gen("c08.quso", 450, 9000), nontrivial=_nontrivial)
 def check_quso_form(case):
     """Same for H.to_quso() with H.convert_solution(s, spin=True)."""
     return _check_form(case, "quso")
@@ -364,7 +366,7 @@ def check_quso_form(case):
 # remove_ancilla_from_solution
 # ---------------------------------------------------------------------------------------------
 def _gen_remove(ctx):
-    for case in _gen("c08.rm", 120, 2400)(ctx):
+    for case in _gen("c08.rm", 150, 3000)(ctx):
         yield {"kind": "workflow", "case": case}
     sols = [{}, {'a': 1}, {'__a0': 1}, {'a': 0, '__a0': 1, '__a1': 0, 0: 1, ('t', 1): 0, '__a10': 1},
             {'_a0': 1, 'a__a0': 0, '__b': 1, 1: -1, '__a3': -1}, {('__a0',): 1, '__a0': 0, 3: 1}]
